@@ -1,3 +1,4 @@
+from .. import world
 from ..core import hexs
 
 T = "Tinode.Props.C05."
@@ -63,12 +64,13 @@ PROP = dict(
                "types.go by an exhaustive differential run (all 256x256 pairs, all short strings) on every run.",
     level_note="Trusted: Lean kernel; the hand-written model Model/Acs.lean is tied to the code only by the differential run "
                "(exhaustive for pairs and short strings, sampled for longer strings); notifySubChange/updateAcsFromPresMsg are "
-               "modelled as notifyStr/applyMutation.",
+               "modelled as notifyStr/applyMutation; the world stream runs the real notifySubChange and its monitor applies every announced "
+               "delta to the mode held before and compares with the mode the topic holds after.",
     technique="Lean 4 proof (BitVec extensionality + list induction) + exhaustive differential correspondence",
     modules=["TinodeVerif.Props.C05"],
     theorems=[T + n for n in ["marshal_parse", "parse_case_insensitive", "parse_reject_unchanged", "empty_is_nochange",
                               "effective_is_inter", "delta_apply", "notify_apply", "proxy_tracks_master"]],
-    streams=[dict(name="acs", pkg="types", gen=gen_acs, classify=classify)],
+    streams=[dict(name="acs", pkg="types", gen=gen_acs, classify=classify), world.world_stream("C05")],
     seeds=dict(quick=1, thorough=3),
     exhaustive=dict(quick=True, thorough=True),
     rule="all 256x256 (old,new) pairs through Delta/ApplyDelta, all 256 sets x 5 targets through Marshal/Unmarshal, "
